@@ -40,3 +40,74 @@ def site(sg, n):
 
 def fn_site(F, fid):
     return '%s (%s)' % (F.file_line(fid), fid)
+
+
+_loop_cache = {}
+
+
+def has_loop(b):
+    k = b['id']
+    if k in _loop_cache:
+        return _loop_cache[k]
+    blocks = b['blocks']
+    succ = {}
+    for i, bl in enumerate(blocks):
+        t = bl['term']
+        s = []
+        if t['k'] == 'goto':
+            s = [t['target']]
+        elif t['k'] == 'switch':
+            s = [x[1] for x in t['targets']] + [t['otherwise']]
+        elif t['k'] in ('call', 'drop', 'assert'):
+            s = [t['target']] if t.get('target') is not None else []
+        succ[i] = s
+    color = {}
+    found = False
+    st = [(0, iter(succ[0]))]
+    color[0] = 1
+    while st and not found:
+        u, it = st[-1]
+        adv = False
+        for v in it:
+            if color.get(v) == 1:
+                found = True
+                break
+            if v not in color:
+                color[v] = 1
+                st.append((v, iter(succ[v])))
+                adv = True
+                break
+        if not adv and not found:
+            color[u] = 2
+            st.pop()
+    _loop_cache[k] = found
+    return found
+
+
+def loop_opaque(t, b):
+    return has_loop(b)
+
+
+def strip_conv(t):
+    while isinstance(t, tuple) and t and (t[0] in ('conv', 'idcall') or (t[0] == 'cast' and t[1] == 'IntToInt')):
+        t = t[2] if t[0] in ('conv', 'idcall') else t[3]
+    return t
+
+
+def err_variant(t):
+    """Name of the Error variant of an Err(..) return term, 'Ok' for Ok(..), None otherwise."""
+    if isinstance(t, tuple) and t[0] == 'agg':
+        if t[1].endswith('::Ok'):
+            return 'Ok'
+        if t[1].endswith('::Err') and t[2]:
+            e = t[2][0]
+            while e[0] in ('conv', 'idcall'):
+                e = e[2]
+            if e[0] == 'agg':
+                return e[1].rsplit('::', 1)[1]
+            return 'Err(?)'
+        if t[1].endswith('::None'):
+            return 'None'
+        if t[1].endswith('::Some'):
+            return 'Some'
+    return None
